@@ -47,7 +47,8 @@ MANIFEST = {
 }
 EXTRA_LEAN_MODULES = ["DirectVerif.Lemmas.C19Ops", "DirectVerif.Lemmas.C19Loglik", "DirectVerif.Lemmas.C19CG",
                       "DirectVerif.Lemmas.C19Energy", "DirectVerif.Lemmas.C19Term", "DirectVerif.Lemmas.C19Batch",
-                      "DirectVerif.Lemmas.C19Sites", "DirectVerif.Lemmas.C19Unnorm"]
+                      "DirectVerif.Lemmas.C19Sites", "DirectVerif.Lemmas.C19Unnorm", "DirectVerif.Lemmas.C19Stop",
+                      "DirectVerif.Lemmas.C19State"]
 TRUSTED = [
     "Lean 4.33 kernel + Mathlib; axioms ⊆ {propext, Classical.choice, Quot.sound}",
     "harness/translate/recipes/c19.py (Python AST -> Plan; pattern rules for expand/reduce/mask/forward/backward, inlining)",
@@ -1098,6 +1099,10 @@ def oracle(ctx: Ctx, deep: bool = False):
     ctx.notes.append({"site_table": [dict(zip(("site", "file", "model_form", "relation_to_data_fidelity", "bridge_lemmas", "oracle"), row))
                                      for row in c19_sites.SITE_TABLE],
                       "site_relations_checked_on_real_modules": counts})
+    try:
+        ctx.notes.append(c19_sites.lowercase_update_type_note())
+    except Exception as e:  # noqa: BLE001
+        ctx.notes.append({"observation": f"lower-case update type probe failed: {err_name(e)}"})
     # ---- 3-D (slice/time) inputs
     for note in _three_d_notes():
         if isinstance(note, Violation):
